@@ -184,6 +184,11 @@ def finalize(m, tier):
 # directed edge workloads shared between several checks (pv/edges.py)
 
 _plan_without_edges, _run_job_without_edges = plan, run_job
+_required_without_edges = globals().get('required_buckets')
+
+
+def required_buckets(tier):
+    return (list(_required_without_edges(tier)) if _required_without_edges else []) + [ID + '/edge/']
 
 
 def plan(tier, seed):
